@@ -46,4 +46,44 @@ def Comp.toUSys {S C O : Type} (K : Comp S C O) : USys S C (List (CTx O)) Unit C
   getters := fun c _ => c
   noResult := ()
 
+-- systems whose block execution reads an environment supplied by another native (Model/Ledger/Guarded.lean) ----------
+structure EUSys (E V C B R T : Type) where
+  apply : E → V → C → Nat → B → V × C × R
+  initCache : V → Nat → C
+  getters : C → Nat → T
+  noResult : R
+
+namespace EUSys
+variable {E V C B R T V₂ C₂ B₂ R₂ T₂ : Type}
+
+def fix (U : EUSys E V C B R T) (e : E) : USys V C B R T :=
+  { apply := U.apply e, initCache := U.initCache, getters := U.getters, noResult := U.noResult }
+
+def prod (U₁ : EUSys E V C B R T) (U₂ : EUSys E V₂ C₂ B₂ R₂ T₂) : EUSys E (V × V₂) (C × C₂) (B × B₂) (R × R₂) (T × T₂) where
+  apply := fun e v c h b =>
+    (((U₁.apply e v.1 c.1 h b.1).1, (U₂.apply e v.2 c.2 h b.2).1),
+     ((U₁.apply e v.1 c.1 h b.1).2.1, (U₂.apply e v.2 c.2 h b.2).2.1),
+     ((U₁.apply e v.1 c.1 h b.1).2.2, (U₂.apply e v.2 c.2 h b.2).2.2))
+  initCache := fun v h => (U₁.initCache v.1 h, U₂.initCache v.2 h)
+  getters := fun c h => (U₁.getters c.1 h, U₂.getters c.2 h)
+  noResult := (U₁.noResult, U₂.noResult)
+
+end EUSys
+
+/-- a system that ignores the environment -/
+def USys.toE {V C B R T : Type} (E : Type) (U : USys V C B R T) : EUSys E V C B R T :=
+  { apply := fun _ => U.apply, initCache := U.initCache, getters := U.getters, noResult := U.noResult }
+
+/-- dependent product: the second system's blocks run in the environment `env` computed from the first system's
+    storage and caches at that block (e.g. the cached committee after NEO.OnPersist) -/
+def USys.dprod {E V C B R T V₂ C₂ B₂ R₂ T₂ : Type} (U₁ : USys V C B R T) (env : V → C → Nat → E)
+    (U₂ : EUSys E V₂ C₂ B₂ R₂ T₂) : USys (V × V₂) (C × C₂) (B × B₂) (R × R₂) (T × T₂) where
+  apply := fun v c h b =>
+    (((U₁.apply v.1 c.1 h b.1).1, (U₂.apply (env v.1 c.1 h) v.2 c.2 h b.2).1),
+     ((U₁.apply v.1 c.1 h b.1).2.1, (U₂.apply (env v.1 c.1 h) v.2 c.2 h b.2).2.1),
+     ((U₁.apply v.1 c.1 h b.1).2.2, (U₂.apply (env v.1 c.1 h) v.2 c.2 h b.2).2.2))
+  initCache := fun v h => (U₁.initCache v.1 h, U₂.initCache v.2 h)
+  getters := fun c h => (U₁.getters c.1 h, U₂.getters c.2 h)
+  noResult := (U₁.noResult, U₂.noResult)
+
 end NeoModel.Ledger
